@@ -791,8 +791,8 @@ pub fn spaces(tier: Tier) -> Vec<Space> {
     // (1d) histories on ONE library object: sign on it (fills its sighash cache), attach the unlocking script, mutate it
     // through the API, then interpret that same object — the verdict must follow the object's current contents
     {
-        v.push(Space::new("api-object-history", 2 * 12 * API_MUTATIONS.len() as u64 * 2, move |case, acc| {
-            let c = coords(case.idx, &[2, 12, API_MUTATIONS.len() as u64, 2]);
+        v.push(Space::new("api-object-history", 4 * 12 * API_MUTATIONS.len() as u64 * 2, move |case, acc| {
+            let c = coords(case.idx, &[4, 12, API_MUTATIONS.len() as u64, 2]);
             api_history_case(acc, case, c[0] as usize, STD_FLAGS[c[1] as usize], API_MUTATIONS[c[2] as usize], c[3] as usize);
         }));
     }
@@ -867,10 +867,12 @@ pub fn spaces(tier: Tier) -> Vec<Space> {
     v
 }
 
-const API_MUTATIONS: [&str; 8] = ["none", "other-input-sequence", "other-input-vout", "own-input-sequence", "output-value", "add-output", "version", "locktime"];
+const API_MUTATIONS: [&str; 11] = ["none", "other-input-sequence", "other-input-vout", "own-input-sequence", "output-value", "add-output", "version", "locktime", "add-outputs(two)", "add-inputs(two)", "observe-then-add-inputs(two)"];
 
-/// fam 0 = P2PK, 1 = P2PKH. Everything happens on one Transaction object.
-fn api_history_case(acc: &mut Acc, case: &Case, fam: usize, flag: u32, mutation: &str, idx: usize) {
+/// fam 0 = P2PK, 1 = P2PKH signed with Transaction::sign; 2, 3 = the same signed with Transaction::sign_with_k.
+/// Everything happens on one Transaction object.
+fn api_history_case(acc: &mut Acc, case: &Case, fam4: usize, flag: u32, mutation: &str, idx: usize) {
+    let (fam, with_k) = (fam4 % 2, fam4 >= 2);
     acc.evaluations += 1;
     acc.transitions += 5;
     let value = 0x0000000200000003u64;
@@ -878,7 +880,7 @@ fn api_history_case(acc: &mut Acc, case: &Case, fam: usize, flag: u32, mutation:
     if flag & 0x1f == 3 && idx >= model0.outputs.len() {
         return;
     }
-    let input = json!({"family": if fam == 0 { "P2PK" } else { "P2PKH" }, "flag": format!("0x{:02x}", flag), "mutation_after_signing": mutation, "input_index": idx});
+    let input = json!({"family": if fam == 0 { "P2PK" } else { "P2PKH" }, "signed_with": if with_k { "Transaction::sign_with_k" } else { "Transaction::sign" }, "flag": format!("0x{:02x}", flag), "mutation_after_signing": mutation, "input_index": idx});
     let other = 1 - idx;
     let res = guard(|| -> Result<(bool, Vec<u8>, Vec<u8>), String> {
         let es = |e: bsv::BSVErrors| e.to_string();
@@ -893,7 +895,7 @@ fn api_history_case(acc: &mut Acc, case: &Case, fam: usize, flag: u32, mutation:
             t.add_output(&TxOut::new(o.value, &Script::from_bytes(&o.script).map_err(es)?));
         }
         let sighash = SigHash::try_from(flag as u8).map_err(es)?;
-        let sig = t.sign(&privk, sighash, idx, &locking, value).map_err(es)?;
+        let sig = if with_k { t.sign_with_k(&privk, &PrivateKey::from_hex(KEYS[3]).map_err(es)?, sighash, idx, &locking, value).map_err(es)? } else { t.sign(&privk, sighash, idx, &locking, value).map_err(es)? };
         let unlocking = if fam == 0 { Script::from_asm_string(&sig.to_hex().map_err(es)?).map_err(es)? } else { P2PKHAddress::from_pubkey(&pubk).map_err(es)?.get_unlocking_script(&pubk, &sig).map_err(es)? };
         // attach scripts and value to the signed input (same outpoint, same sequence)
         let mut own = t.get_input(idx).ok_or("no input")?;
@@ -922,6 +924,13 @@ fn api_history_case(acc: &mut Acc, case: &Case, fam: usize, flag: u32, mutation:
                 t.set_output(0, &TxOut::new(o.get_satoshis() ^ 1, &o.get_script_pub_key()));
             }
             "add-output" => t.add_output(&TxOut::new(9, &Script::from_bytes(&[0x51]).map_err(es)?)),
+            "add-outputs(two)" => t.add_outputs(vec![TxOut::new(9, &Script::from_bytes(&[0x51]).map_err(es)?), TxOut::new(10, &Script::from_bytes(&[0x52]).map_err(es)?)]),
+            "add-inputs(two)" | "observe-then-add-inputs(two)" => {
+                if mutation.starts_with("observe") {
+                    let _ = t.sighash_preimage(sighash, idx, &locking, value);
+                }
+                t.add_inputs(vec![TxIn::new(&[0x44u8; 32], 3, &Script::default(), Some(9)), TxIn::new(&[0x45u8; 32], 4, &Script::default(), Some(10))]);
+            }
             "version" => {
                 t.set_version(model0.version ^ 1);
             }
@@ -949,6 +958,16 @@ fn api_history_case(acc: &mut Acc, case: &Case, fam: usize, flag: u32, mutation:
                 "own-input-sequence" => m.inputs[idx].sequence ^= 0x00010000,
                 "output-value" => m.outputs[0].value ^= 1,
                 "add-output" => m.outputs.push(ROut { value: 9, script: vec![0x51] }),
+                "add-outputs(two)" => {
+                    m.outputs.push(ROut { value: 9, script: vec![0x51] });
+                    m.outputs.push(ROut { value: 10, script: vec![0x52] });
+                }
+                "add-inputs(two)" | "observe-then-add-inputs(two)" => {
+                    let mut t1 = [0x44u8; 32];
+                    t1.reverse();
+                    m.inputs.push(RIn { txid_wire: t1, vout: 3, script: vec![], sequence: 9 });
+                    m.inputs.push(RIn { txid_wire: [0x45u8; 32], vout: 4, script: vec![], sequence: 10 });
+                }
                 "version" => m.version ^= 1,
                 "locktime" => m.locktime ^= 0x100,
                 _ => {}
